@@ -119,13 +119,13 @@ Fixpoint agree_hist (rc : bool) (m : mstate) (tr : list (op * obs)) : bool :=
               end
   end.
 
-(* clause layout: agree, pick_sound, pick_complete, contacted_is_picked, disabled_no_traffic, disabled_no_probe *)
+(* clause layout: agree, pick_sound, pick_complete, contacted_is_picked, disabled_no_traffic, disabled_no_probe, removed_no_probe *)
 Definition eval (c : case) : list bool :=
   match c with
   | CHist tr => agree_hist code_recheck (mkM init [] []) tr :: hist_ok spec_init tr
   | CStress rounds strays =>
-      [ if code_recheck then strays =? 0 else true; true; true; true; true; strays =? 0 ]
-  | CBroken => [false; true; true; true; true; true]
+      [ if code_recheck then strays =? 0 else true; true; true; true; true; strays =? 0; true ]
+  | CBroken => [false; true; true; true; true; true; true]
   end.
 
 (* for debugging a disagreement: index of the first step that does not agree *)
